@@ -196,7 +196,7 @@ def run(ctx):
                                 ctx.violation(f"cell/trailing-NUL-stripped/dtype={col.dtype.kind}",
                                               f"APID {apid} row {ri} variable {name}: cell {got!r} ({col.dtype}) lost the trailing NUL(s) of {exp!r}",
                                               dict(wit, variable=name, row=ri, cell=got, expected=exp, dtype=str(col.dtype)))
-                                break
+                                continue    # keep comparing the remaining rows of this variable
                             if not ok:
                                 ctx.violation(f"cell/{'raw' if raw_mode else 'derived'}/{info.feat[name]}/{vc}/dtype={col.dtype.kind}",
                                               f"APID {apid} row {ri} variable {name}: cell {got!r} ({col.dtype}) != parsed {'raw ' if raw_mode else ''}value {exp!r}",
@@ -205,6 +205,7 @@ def run(ctx):
             if i < 2:
                 ctx.sample({"doc": i, "apids": apids, "files": nfiles, "layout": {str(a): [(n, info.feat[n]) for n, _ in l] for a, l in layout.items()}})
         polymorphic(ctx, scratch)
+        directed_nuls(ctx, scratch)
     finally:
         import shutil
         shutil.rmtree(scratch, ignore_errors=True)
@@ -231,6 +232,50 @@ def blame(doc, layout, rows, raw_mode, exc):
     if isinstance(exc, ValueError) and "invalid literal" in msg:
         return "enumerated-derived" if "enumerated-derived" in feats else "literal-other"
     return "other"
+
+
+def directed_nuls(ctx, scratch):
+    """cells whose value ends in NUL characters / bytes (derived and raw)"""
+    from space_packet_parser import packets as P
+    from space_packet_parser import xarr
+    from vmon.props.c05 import header_types
+    ts, ps = header_types("PKT_APID")
+    ts += [ir.PType("S_Type", "string", ir.StrEnc("US-ASCII", 24)), ir.PType("B_Type", "binary", ir.BinEnc(16)),
+           ir.PType("T_Type", "string", ir.StrEnc("UTF-8", 32, "3b"))]
+    ps += [ir.Param("S", "S_Type"), ir.Param("B", "B_Type"), ir.Param("T", "T_Type")]
+    root = ir.Container("CCSDSPacket", tuple(("p", p.name) for p in ps))
+    doc = ir.Doc(tuple(ts), tuple(ps), (root,))
+    defn = load_definition(render.render_doc(doc))
+    info = harness.DocInfo(doc)
+    bodies = [b"AB\x00" + b"\x01\x00" + b"x\x00;\x00", b"\x00\x00\x00" + b"\x00\x00" + b"\x00;AB", b"ABC" + b"\x00\x07" + b"ab;\x00"]
+    raws = [bytes(P.create_ccsds_packet(b, apid=9, sequence_count=k)) for k, b in enumerate(bodies)]
+    path = os.path.join(scratch, "nuls.bin")
+    with open(path, "wb") as f:
+        f.write(b"".join(raws))
+    outs = [ref.walk(doc, r) for r in raws]
+    for raw_mode in (False, True):
+        st = monitored(xarr.create_dataset, path, defn, raw_mode)
+        ctx.count("evaluations")
+        if st.exc is not None:
+            ctx.violation(f"exception/{type(st.exc).__name__}/directed-nuls", repr(st.exc), {"mode": raw_mode})
+            continue
+        ds = st.value[9]
+        for name in ("S", "B", "T"):
+            col = ds[name].values
+            for ri, o in enumerate(outs):
+                v = dict(o.items)[name]
+                exp = v.raw if raw_mode else v.value
+                got = cell_value(col[ri])
+                ctx.count("cells.compared")
+                ctx.sig("raw" if raw_mode else "derived", info.feat[name], value_class(exp), "directed")
+                if same_cell(got, exp):
+                    continue
+                if isinstance(exp, (bytes, str)) and type(got) is type(exp) and got == exp.rstrip(b"\x00" if isinstance(exp, bytes) else "\x00"):
+                    ctx.violation(f"cell/trailing-NUL-stripped/dtype={col.dtype.kind}", f"variable {name} row {ri}: cell {got!r} lost the trailing NUL(s) of {exp!r}",
+                                  {"variable": name, "row": ri, "cell": got, "expected": exp, "dtype": str(col.dtype)})
+                else:
+                    ctx.violation(f"cell/{'raw' if raw_mode else 'derived'}/{info.feat[name]}/{value_class(exp)}/dtype={col.dtype.kind}",
+                                  f"variable {name} row {ri}: cell {got!r} != {exp!r}", {"variable": name, "row": ri, "cell": got, "expected": exp})
 
 
 def polymorphic(ctx, scratch):
